@@ -14,6 +14,7 @@ from engine import sqfprog
 
 ID = "C05"
 LEVEL = "exploration"
+HANG_IS_VIOLATION = True     # every generated case terminates under the model: no reply (twice, then 3x confirmation) is a violation
 ENGINE = "E-hyp"
 TECHNIQUE = "property-based testing: hostile blocks in pending-operand contexts; per-instruction stack invariants (hook) + reference-interpreter value oracle; concurrent scheduled copies with small slices"
 RULE = ("cases = 1-3 statements `T pushBack [k, <ctx>]` where <ctx> is a nested array / binary chain whose operands include calls of hostile "
